@@ -1390,6 +1390,7 @@ Lemma assemble_ifd_unedited t : wf_desc t -> desc_slots t -> blank_zero t ->
 Proof.
   intros D DS BZ L LS. rewrite (assemble_ifd_eq t D L LS).
   pose proof D as (D1 & D2 & R1 & R2 & _).
-  rewrite (split3 (t_ifd t) (t_rs t) 64) at 4 by lia.
-  change 64 with ifd_region_section_size at 3. rewrite DS, BZ. reflexivity.
+  transitivity (zfirstn (t_rs t) (t_ifd t) ++ sub (t_rs t) 64 (t_ifd t) ++ zskipn (t_rs t + 64) (t_ifd t));
+    [|symmetry; apply split3; lia].
+  f_equal. f_equal. change 64 with ifd_region_section_size. rewrite DS, BZ. reflexivity.
 Qed.
